@@ -6,6 +6,9 @@ import (
 	"sync"
 
 	"cedarverif/internal/core"
+	"cedarverif/internal/strace"
+
+	"github.com/bbockelm/cedar/stream"
 )
 
 type Job struct {
@@ -18,6 +21,18 @@ type Job struct {
 func ReplayAll(c *core.Ctx, jobs []Job, stats *Stats) {
 	var mu sync.Mutex
 	conform := int64(0)
+	// code -> spec: every event the real streams emit during the replays is
+	// collected and validated against StreamEndpoint_Trace.tla afterwards
+	col := &strace.Collector{}
+	col.Install()
+	OnRefSend = func(raw, key []byte, ctr uint32, prot bool) {
+		col.AddSyntheticSend(stream.VerifFP(raw), stream.VerifFP(key), ctr, prot)
+	}
+	defer func() {
+		col.Uninstall()
+		OnRefSend = nil
+		ValidateStreamTraces(c, col.Events(), true, "replay")
+	}()
 	core.ParallelFor(len(jobs), 16, func(i int) {
 		j := jobs[i]
 		var st Stats
@@ -97,4 +112,46 @@ func ReplayFile(c *core.Ctx) bool {
 	var st Stats
 	ReplayAll(c, []Job{{sc, rf.Scenario.Variant}}, &st)
 	return true
+}
+
+// ValidateStreamTraces validates hook events against StreamEndpoint_Trace.tla and
+// records every rejected object trace as a failure.
+func ValidateStreamTraces(c *core.Ctx, evs []strace.Event, strict bool, label string) {
+	if len(evs) == 0 {
+		return
+	}
+	groups := strace.Prepare(evs, strict)
+	acc, rej := strace.Validate(c, groups, label)
+	c.Add("stream_object_traces_validated_by_tlc", int64(acc))
+	c.Add("stream_trace_events", int64(len(evs)))
+	for _, r := range rej {
+		upto := r.Group.Events
+		if r.Index+1 < len(upto) {
+			upto = upto[:r.Index+1]
+		}
+		c.Fail(core.Failure{
+			Signature: map[string]string{"spec": "StreamEndpoint", "action": fmtEv(r.Event), "class": "trace-rejected", "source": label},
+			Detail:    "TLC cannot explain event " + fmtEv(r.Event) + " of a real stream object by any StreamEndpoint action (logged post-state differs from the specification's)",
+			Scenario:  map[string]any{"kind": "StreamTrace", "events": upto},
+		})
+	}
+}
+
+func fmtEv(e strace.Event) string { s, _ := e["ev"].(string); return s }
+
+// ValidateRepoTestTraces runs the repository's own tests of the given packages
+// with the hooks on and validates every stream object's trace. Unknown frame
+// origins (hand-made test vectors) are not judged.
+func ValidateRepoTestTraces(c *core.Ctx, pkgs ...string) {
+	evs, err := strace.RunRepoTests(c, pkgs...)
+	if err != nil {
+		c.Broken("cannot collect repository test traces: %v", err)
+		return
+	}
+	if len(evs) == 0 {
+		c.Broken("repository tests with hooks on produced no trace events")
+		return
+	}
+	c.Add("repo_test_trace_events", int64(len(evs)))
+	ValidateStreamTraces(c, evs, false, "repo-tests")
 }
